@@ -76,4 +76,44 @@ CHECKS = {
                  '(two real clients) is exercised by C04 with limits but judged there only for completion; slack term as stated in DESIGN.md'),
         'technique': 'deterministic simulation on the virtual clock (real limiter/network objects, scripted consumers) + exact window oracle',
     },
+    'C18': {
+        'category': 'exploration',
+        'text': ('seeded sequences of search / room search / user search / wishlist rounds (server WishlistInterval, repeated), '
+                 'manual removals, incoming PeerSearchReply frames from scripted peers (matching, duplicate, after removal, after '
+                 'timeout, unknown ticket) and timer expiries, with timeouts off / small / server-provided and removal, expiry and '
+                 'reply placed 1 ns apart in all six orders and in one instant; judged by a live-ticket reference model '
+                 '(models/tickets.py). A second plan shape drives the public tasks.Timer directly (start/cancel/reschedule '
+                 'around the expiry iteration, slow and re-arming callbacks).'),
+        'design_ref': 'DESIGN.md section 3 (C18), appendix B.4',
+        'note': ('ticket wrap-around at 2^32 is out of reach; store_results is varied but not judged; events in the same virtual '
+                 'instant as a removal/expiry may go either way for the tying event only'),
+        'technique': 'deterministic simulation (virtual clock, scripted server/peers) + live-ticket reference model over the event history',
+    },
+    'C07': {
+        'category': 'exploration',
+        'text': ('seeded histories (<= 8 steps) of add / remove / update / scan-all / scan-one / file create-delete-rename-touch / '
+                 'explicit gc over generated trees (<= 30 files, colliding vocabulary, accents, CJK, nested shared directories), '
+                 'with share operations overlapping pending scan jobs on the simulated executor and files vanishing between '
+                 'listing and stat; at scanned and settled points the real index, stats and query results are compared with an '
+                 'independent reference index and matcher (models/shares.py); between scans only the unambiguous clauses.'),
+        'design_ref': 'DESIGN.md section 3 (C07), appendix B.6',
+        'note': ('the query predicate on a fixed index is a pure function: that half is sampled along the simulated histories, not '
+                 'decided (DESIGN.md section 4); names are restricted to characters with one-to-one case mapping; reading of the '
+                 'matching rule is documented in models/shares.py'),
+        'technique': 'deterministic simulation (inline executor with planned delays, tmpfs tree, gc as a scheduled event) + differential against a reference index/matcher',
+    },
+    'C15': {
+        'category': 'exploration',
+        'text': ('seeded sequences (<= 8) of track_user/untrack_user with flags REQUESTED/FRIEND/TRANSFER on 1-2 users, issued at '
+                 'plan instants and on triggers k = 0..4 loop iterations after the worker\'s observable steps (AddUser/RemoveUser '
+                 'reaching the scripted server, tracking-state events, attempt timeouts) - the full k sweep of the '
+                 '"untrack last flag -> track" pattern is in the directed corpus - against per-attempt server behaviour exists / '
+                 'not-exists / silent and server loss (close, abort, reset) at drawn points; horizon 1500 virtual s so 600 s '
+                 'retries are seen. Judged by a flag-fold reference model (models/tracking.py): wire word, retry rule, final '
+                 'flags/state, silence after loss.'),
+        'design_ref': 'DESIGN.md section 3 (C15), appendix B.3',
+        'note': ('a send failure before any loss cannot be produced (aioslsk skips sends on a closed link); reconnect is off; '
+                 'calls coinciding with the loss instant are accepted either way'),
+        'technique': 'deterministic simulation with iteration-relative triggers + reference-model check of the server-side frame history',
+    },
 }
